@@ -20,7 +20,7 @@ def big_cases():
     for n in (8190, 8191, 8192):
         el = {"kind": "boundary", "elflags": [], "plex": [], "layer": 1, "datatype": 0, "xy": [[i, -i] for i in range(n)], "props": []}
         out.append({"lib": dict(base, structs=[{"name": [99], "dates": [0] * 12, "elems": [el]}]), "limit": f"xy{n}", "fits": n <= 8190})
-    for n in (65530, 65531, 65532):
+    for n in (65529, 65530, 65531, 65532, 65533, 65534, 65535, 65536):
         el = {"kind": "text", "elflags": [], "plex": [], "layer": 1, "texttype": 0, "presentation": [], "pathtype": [], "width": [],
               "strans": [], "xy": [[0, 0]], "string": [97 + (i % 26) for i in range(n)], "props": []}
         out.append({"lib": dict(base, structs=[{"name": [99], "dates": [0] * 12, "elems": [el]}]), "limit": f"str{n}", "fits": n <= 65530})
